@@ -386,6 +386,32 @@ impl Mul<QuadBez> for Affine {
     }
 }
 
+
+/// Verification hooks: access to the private flattening helpers.
+#[cfg(kurbo_verif)]
+#[allow(missing_docs)]
+impl QuadBez {
+    /// `(a0, a2, u0, uscale, val)` of [`QuadBez::estimate_subdiv`].
+    pub fn verif_estimate_subdiv(&self, sqrt_tol: f64) -> (f64, f64, f64, f64, f64) {
+        let p = self.estimate_subdiv(sqrt_tol);
+        (p.a0, p.a2, p.u0, p.uscale, p.val)
+    }
+    pub fn verif_determine_subdiv_t(&self, sqrt_tol: f64, x: f64) -> f64 {
+        let p = self.estimate_subdiv(sqrt_tol);
+        self.determine_subdiv_t(&p, x)
+    }
+}
+#[cfg(kurbo_verif)]
+#[allow(missing_docs)]
+pub fn verif_approx_parabola_integral(x: f64) -> f64 {
+    approx_parabola_integral(x)
+}
+#[cfg(kurbo_verif)]
+#[allow(missing_docs)]
+pub fn verif_approx_parabola_inv_integral(x: f64) -> f64 {
+    approx_parabola_inv_integral(x)
+}
+
 #[cfg(test)]
 mod tests {
     use crate::{
